@@ -70,6 +70,17 @@ Theorem C12_eq_same_family : forall T c fs c' fs' sp sp',
   family_of T c = family_of T c'.
 Proof. exact eq_same_family. Qed.
 
+(* ---------------------------------------------------------------- the transcribed table vs the source text *)
+(* src_eq_C12 / src_hash_C12 (generated from the syntax tree of every __eq__ / __hash__): every attribute that
+   T_C12 claims compared is read on BOTH self and other, no attribute is read on one side only ("compared with
+   itself"), every attribute T_C12 claims hashed is read by __hash__; all classes are listed *)
+Theorem C12_table_source_eq : src_eq_ok T_C12 = true.
+Proof. vm_compute. reflexivity. Qed.
+Theorem C12_table_source_hash : src_hash_ok T_C12 = true.
+Proof. vm_compute. reflexivity. Qed.
+Theorem C12_table_source_complete : src_complete = true.
+Proof. vm_compute. reflexivity. Qed.
+
 (* ---------------------------------------------------------------- equal objects have equal hashes *)
 (* side condition: attribute by attribute, what __hash__ does identifies at least what __eq__ identifies *)
 Theorem C12_table_hash_coarser : hash_coarser T_C12 = true.
@@ -143,6 +154,9 @@ Print Assumptions C12_eq_sensitive_states.
 Print Assumptions C12_eq_differs.
 Print Assumptions C12_round10_close.
 Print Assumptions C12_eq_same_family.
+Print Assumptions C12_table_source_eq.
+Print Assumptions C12_table_source_hash.
+Print Assumptions C12_table_source_complete.
 Print Assumptions C12_table_hash_coarser.
 Print Assumptions C12_eq_hash.
 Print Assumptions C12_table_types_cover.
